@@ -15,50 +15,64 @@ CONSTANTS Plan, MaxServers
 Batches == DOMAIN Plan
 AllCases == UNION {Plan[b].cases : b \in Batches}
 
-VARIABLES srv, addr, sem, sent, setupFailed, nextAddr, finished
-vars == <<srv, addr, sem, sent, setupFailed, nextAddr, finished>>
+VARIABLES srv, addr, sem, sent, setupFailed, nextAddr, finished,
+          proc     \* proc[b]: the server process of batch b: "none" (not started), "alive", "gone"
+vars == <<srv, addr, sem, sent, setupFailed, nextAddr, finished, proc>>
 
 Init == /\ srv = [b \in Batches |-> "idle"] /\ addr = [b \in Batches |-> 0]
         /\ sem = 0 /\ sent = {} /\ setupFailed = {} /\ nextAddr = 1 /\ finished = FALSE
+        /\ proc = [b \in Batches |-> "none"]
 
 Acquire(b) == /\ srv[b] = "idle" /\ sem < MaxServers /\ ~finished
               /\ \A c \in Batches : c < b => srv[c] # "idle"          \* batches are started in plan order
               /\ srv' = [srv EXCEPT ![b] = "acquired"] /\ sem' = sem + 1
-              /\ UNCHANGED <<addr, sent, setupFailed, nextAddr, finished>>
+              /\ UNCHANGED <<addr, sent, setupFailed, nextAddr, finished, proc>>
+\* OBSERVABLE: the server process of batch b exists
+Started(b) == /\ srv[b] = "acquired" /\ proc[b] = "none"
+              /\ proc' = [proc EXCEPT ![b] = "alive"]
+              /\ UNCHANGED <<srv, addr, sem, sent, setupFailed, nextAddr, finished>>
+\* OBSERVABLE: the server process of batch b is gone
+Gone(b) == /\ proc[b] = "alive"
+           /\ proc' = [proc EXCEPT ![b] = "gone"]
+           /\ UNCHANGED <<srv, addr, sem, sent, setupFailed, nextAddr, finished>>
 \* OBSERVABLE: the server is up at a fresh address
-Up(b, a) == /\ srv[b] = "acquired" /\ a \notin {addr[c] : c \in {d \in Batches : srv[d] = "up"}}
+Up(b, a) == /\ srv[b] = "acquired" /\ proc[b] = "alive" /\ a \notin {addr[c] : c \in {d \in Batches : srv[d] = "up"}}
             /\ srv' = [srv EXCEPT ![b] = "up"] /\ addr' = [addr EXCEPT ![b] = a]
-            /\ UNCHANGED <<sem, sent, setupFailed, nextAddr, finished>>
+            /\ UNCHANGED <<sem, sent, setupFailed, nextAddr, finished, proc>>
 StartFailed(b) == /\ srv[b] = "acquired"
                   /\ srv' = [srv EXCEPT ![b] = "stopped"] /\ setupFailed' = setupFailed \cup Plan[b].cases
-                  /\ UNCHANGED <<addr, sem, sent, nextAddr, finished>>
+                  /\ UNCHANGED <<addr, sem, sent, nextAddr, finished, proc>>
 \* OBSERVABLE: the client receives permutation n, completed with address a, described as instance i
 Send(b, n, a, i) == /\ srv[b] = "up" /\ n \in Plan[b].cases /\ n \notin sent /\ n \notin setupFailed
                     /\ a = addr[b] /\ i = Plan[b].inst
                     /\ sent' = sent \cup {n}
-                    /\ UNCHANGED <<srv, addr, sem, setupFailed, nextAddr, finished>>
+                    /\ UNCHANGED <<srv, addr, sem, setupFailed, nextAddr, finished, proc>>
 \* OBSERVABLE: the server at address a is told to stop
 Stop(b) == /\ srv[b] = "up" /\ Plan[b].cases \subseteq sent \cup setupFailed
            /\ srv' = [srv EXCEPT ![b] = "stopped"]
-           /\ UNCHANGED <<addr, sem, sent, setupFailed, nextAddr, finished>>
+           /\ UNCHANGED <<addr, sem, sent, setupFailed, nextAddr, finished, proc>>
 \* the server died or the client refused further requests: the unsent rest of the batch is failed
 Abandon(b) == /\ srv[b] = "up" /\ ~(Plan[b].cases \subseteq sent \cup setupFailed)
               /\ setupFailed' = setupFailed \cup (Plan[b].cases \ sent)
-              /\ UNCHANGED <<srv, addr, sem, sent, nextAddr, finished>>
-Release(b) == /\ srv[b] = "stopped"
+              /\ UNCHANGED <<srv, addr, sem, sent, nextAddr, finished, proc>>
+\* the slot is given back only when the process is gone (or never existed)
+Release(b) == /\ srv[b] = "stopped" /\ proc[b] # "alive"
               /\ srv' = [srv EXCEPT ![b] = "released"] /\ sem' = sem - 1
-              /\ UNCHANGED <<addr, sent, setupFailed, nextAddr, finished>>
+              /\ UNCHANGED <<addr, sent, setupFailed, nextAddr, finished, proc>>
 Finish == /\ ~finished /\ \A b \in Batches : srv[b] = "released"
           /\ finished' = TRUE
-          /\ UNCHANGED <<srv, addr, sem, sent, setupFailed, nextAddr>>
+          /\ UNCHANGED <<srv, addr, sem, sent, setupFailed, nextAddr, proc>>
 
 Internal == \E b \in Batches : Acquire(b) \/ StartFailed(b) \/ Abandon(b) \/ Release(b)
 Next == Internal \/ Finish
-        \/ \E b \in Batches : Stop(b) \/ (\E a \in 1..Cardinality(Batches) : Up(b, a))
+        \/ \E b \in Batches : Stop(b) \/ Started(b) \/ Gone(b) \/ (\E a \in 1..Cardinality(Batches) : Up(b, a))
                               \/ (\E n \in Plan[b].cases : Send(b, n, addr[b], Plan[b].inst))
 Spec == Init /\ [][Next]_vars /\ WF_vars(Next)
+\* (Started is optional in the design check: a start failure may happen before any process exists)
 
-AliveBound == Cardinality({b \in Batches : srv[b] \in {"acquired", "up", "stopped"}}) <= MaxServers /\ sem <= MaxServers
+AliveBound == /\ Cardinality({b \in Batches : srv[b] \in {"acquired", "up", "stopped"}}) <= MaxServers /\ sem <= MaxServers
+              /\ Cardinality({b \in Batches : proc[b] = "alive"}) <= MaxServers      \* server PROCESSES alive at once
+NoneLeftRunning == finished => \A b \in Batches : proc[b] # "alive"
 AtMostOnce == sent \cap setupFailed = {}
 Complete == finished => (sent \cup setupFailed = AllCases /\ \A b \in Batches : srv[b] = "released")
 DistinctAddrs == \A b, c \in Batches : (b # c /\ srv[b] = "up" /\ srv[c] = "up") => addr[b] # addr[c]
